@@ -320,6 +320,34 @@ def build_via(pg: dict, via: str, rng, cls_name: str | None = None):
             sup["atoms"][e] = {"atom_type": rng.choice([1, 6, 8])}
             for t in rng.sample(ids, min(len(ids), rng.randint(0, 2))):
                 sup["bonds"][frozenset((e, t))] = {}
+        if cls_name.startswith("Stereo") and rng.random() < 0.6:
+            # the surplus atoms are also LIGANDS of descriptors / stereo changes on centres and bonds that carry none in pg:
+            # cutting the atom away has to take those entries with it, completely
+            nb = sem.pg_neighbors(sup)
+            for e in extra:
+                for t in sorted(nb[e], key=repr):
+                    if t in sup["astereo"] or t in sup["achange"] or not 3 <= len(nb[t]) <= 4 or rng.random() < 0.4:
+                        continue
+                    lig = sorted(nb[t], key=repr)
+                    rng.shuffle(lig)
+                    d = ("Tetrahedral", (t, *lig, *([None] * (4 - len(lig)))), rng.choice((1, -1)))
+                    if cls_name.endswith("ReactionGraph") and rng.random() < 0.6:
+                        sup["achange"][t] = {s_: d for s_ in rng.sample(["BROKEN", "FORMED", "FLEETING"], rng.randint(1, 3))}
+                    else:
+                        sup["astereo"][t] = d
+                for t in sorted(nb[e], key=repr):
+                    for u in sorted(nb[t] - {e}, key=repr):
+                        b = frozenset((t, u))
+                        if b in sup["bstereo"] or b in sup["bchange"] or "reaction" in sup["bonds"][b] or len(nb[t]) > 3 or len(nb[u]) > 3 or rng.random() < 0.5:
+                            continue
+                        lt = sorted(nb[t] - {u}, key=repr)
+                        lu = sorted(nb[u] - {t}, key=repr)
+                        d = ("PlanarBond", (*lt, *([None] * (2 - len(lt))), t, u, *lu, *([None] * (2 - len(lu)))), 0)
+                        if cls_name.endswith("ReactionGraph") and rng.random() < 0.7:
+                            sup["bchange"][b] = {s_: d for s_ in rng.sample(["BROKEN", "FORMED", "FLEETING"], rng.randint(1, 3))}
+                        else:
+                            sup["bstereo"][b] = d
+                        break
         g = build(sup, cls_name, rng=rng)
         if via == "subgraph":
             order = ids[:]
